@@ -20,6 +20,11 @@ pub fn autoplay(millis: u64) {
         HashMap::with_capacity_and_hasher(TT_CAPACITY, BuildNoHashHasher::default());
 
     loop {
+        #[cfg(daniel729_chess_verif)]
+        {
+            crate::verif::sched("autoplay_loop");
+            crate::verif::search_begin();
+        }
         let mut moves = ArrayVec::new();
         game.get_moves(&mut moves, true);
         println!("{}", game.get_pgn());
